@@ -27,6 +27,7 @@ CONSTANTS Patterns,     \* sequence of index-type patterns a node object may hav
 \* pattern tables selectable from the configs (Patterns <- PatQuick)
 PatQuick == << <<"cov">>, <<"con">>, <<"cov", "con">>, <<"con", "cov">>, <<"cov", "cov">>, <<"con", "con">>,
                <<"free", "cov">>, <<"free", "con", "cov">> >>
+PatSmall == << <<"cov">>, <<"con">>, <<"cov", "con">>, <<"con", "con">>, <<"free", "con", "cov">> >>      \* for histories of three edges
 PatFull  == PatQuick \o << <<"cov", "cov", "con">>, <<"cov", "con", "con">>, <<"con", "cov", "con">>,
                <<"free", "cov", "con">>, <<"free", "free", "cov">>, <<"free", "con">> >>
 
